@@ -100,10 +100,15 @@ func CancelRun(run, progIdx int, p *prog.Program, cancelAt int, o Options, label
 	traces := 0
 	cancelled := false
 	var once sync.Once
+	parked := cancelAt == -2
 	doCancel := func() {
 		once.Do(func() {
 			r.mu.Lock()
-			r.add(Rec{Ev: "cancel", N: traces})
+			kind := ""
+			if parked {
+				kind = "parked"
+			}
+			r.add(Rec{Ev: "cancel", N: traces, Kind: kind})
 			cancelled = true
 			r.mu.Unlock()
 			cancel()
@@ -164,6 +169,10 @@ func CancelRun(run, progIdx int, p *prog.Program, cancelAt int, o Options, label
 				if l := r.reqs[id]; len(l) > 0 {
 					q = l[len(l)-1]
 				}
+				if parked {
+					// nobody answers: the token stays at the task, the monitor parks in its second phase
+					q = nil
+				}
 				if q != nil && !can {
 					q.answered = true
 					r.add(Rec{Ev: "ans", Node: id, Occ: q.occ})
@@ -205,7 +214,24 @@ func CancelRun(run, progIdx int, p *prog.Program, cancelAt int, o Options, label
 			}
 		}
 	}()
-	if cancelAt < 0 {
+	if parked {
+		// let the instance run into its first unanswered requests and fall silent (every goroutine,
+		// the completion monitor included, is then blocked where it waits), then cancel
+		last, quiet := -1, 0
+		deadline := time.Now().Add(o.T)
+		for time.Now().Before(deadline) && quiet < 12 {
+			r.mu.Lock()
+			k := traces
+			r.mu.Unlock()
+			if k == last {
+				quiet++
+			} else {
+				quiet, last = 0, k
+			}
+			time.Sleep(5 * time.Millisecond)
+		}
+		doCancel()
+	} else if cancelAt < 0 {
 		// reference run: wait for completion (or quiescence), then cancel
 		wctx, wcancel := context.WithTimeout(context.Background(), o.T)
 		done := false
